@@ -76,7 +76,8 @@ def style_of(name: str):
 @st.composite
 def request(draw, with_contributors=True, max_holders=3):
     """What is asked of one annotate invocation."""
-    holders = draw(st.lists(V.safe_holder(), min_size=0, max_size=max_holders, unique=True))
+    # copyright holders may end in any punctuation ("Yahoo!", "Team C#"): the notice reader keeps such tails
+    holders = draw(st.lists(V.holder(), min_size=0, max_size=max_holders, unique=True))
     licences = draw(st.lists(V.expression(1), min_size=0, max_size=2, unique=True))
     contributors = draw(st.lists(V.safe_holder(), min_size=0, max_size=2, unique=True)) if with_contributors else []
     if not (holders or licences or contributors):
